@@ -1140,7 +1140,7 @@ func (s *sim) doAckConsume(g int, n int64) {
 		defer func() { _ = recover() }()
 		h.Ack(n)
 	}()
-	if !gt.waitHit(3 * time.Second) {
+	if !gt.waitHitOr(adone, 3*time.Second) {
 		gt.open()
 		<-adone
 		s.dead = true
@@ -1465,11 +1465,23 @@ func scratch(big bool) (string, error) {
 	return os.MkdirTemp("", "lvh-c06-*")
 }
 
+// sweepStaleScratch removes scratch directories a killed run left on the memory-backed file system
+// (older than 30 minutes: a concurrent run's directories live for seconds).
+func sweepStaleScratch() {
+	ds, _ := filepath.Glob("/dev/shm/lvh-c06-*")
+	for _, d := range ds {
+		if st, err := os.Stat(d); err == nil && time.Since(st.ModTime()) > 30*time.Minute {
+			os.RemoveAll(d)
+		}
+	}
+}
+
 func (a area) Run(c *core.Ctx) error {
 	// a store into a page that GC unmapped would otherwise kill the process: make it a panic of this
 	// goroutine (all queue calls are made synchronously from it), reported as an oracle failure
 	defer debug.SetPanicOnFault(debug.SetPanicOnFault(true))
 	defer installSeam()()
+	sweepStaleScratch()
 	for i := 0; i < c.N; i++ {
 		if !c.Want(i) {
 			continue
